@@ -8,7 +8,8 @@
 From Coq Require Import List Arith Bool Lia ZArith Permutation.
 From OV Require Import Model.TreeDef Model.TreeHeap Model.TreeHeapBase Model.TreeHeapSlot Model.TreeHeapCopy
   Model.TreeHeapGrow Model.TreeHeapOps Model.TreeHeapPop Model.TreeHeapSpec Model.TreeHeapRepro
-  Model.TreeHeapFinal Model.TreeHeapSer Gen.TreeArity.
+  Model.TreeHeapFinal Model.TreeHeapSer Gen.TreeArity
+  Model.TreeOpsDescr Model.TreeOpsModel Gen.TreeOps.
 Import ListNotations.
 
 Theorem C09_arity_table_ok : tab_ok arity_tab.
@@ -159,3 +160,44 @@ Example C09_cross_exchanges :
   | _ => False
   end.
 Proof. vm_compute. split; reflexivity. Qed.
+
+(* ---- the operator bodies of the SOURCE are the ones of the model.
+   Gen/TreeOps.v is regenerated from gp.py / tree.py on every run (translate/t_treeops.py): the sequence of
+   pointer effects of every branch of _cross and _mutate, the deep copies, draws and find_node calls in order, the
+   branch conditions, the returned names; and the linking statements of the argument loop of grow.  They are
+   syntactically the model's descriptions ... *)
+Theorem C09_cross_source_is_model : cross_src = cross_descr.
+Proof. reflexivity. Qed.
+
+Theorem C09_mutate_source_is_model : mutate_src = mutate_descr.
+Proof. reflexivity. Qed.
+
+Theorem C09_grow_link_source_is_model : grow_link_src = grow_link_descr.
+Proof. reflexivity. Qed.
+
+(* ... and interpreting the (regenerated) descriptions on an arbitrary heap with arbitrary scripts is the model
+   function the theorems above are about *)
+Theorem C09_cross_is_source : forall E st father mother maxf maxm ds,
+  ret_cross (run E cross_src
+               (mkCfg (init_env [VPtr (Some father); VPtr (Some mother); VNat maxf; VNat maxm] 13) st ds))
+  = cross st father mother maxf maxm ds.
+Proof. exact cross_is_descr. Qed.
+
+Theorem C09_mutate_is_source : forall E st tree maxn ds,
+  ret_mutate (run E mutate_src (mkCfg (init_env [VPtr (Some tree); VNat maxn] 7) st ds))
+  = mutate E st tree maxn ds.
+Proof. exact mutate_is_descr. Qed.
+
+Theorem C09_grow_args_is_source : forall E (g : list frac -> hstate -> res (nat * hstate * list frac)) fn n i ds st,
+  grow_args g fn (S n) i ds st =
+  match g ds st with
+  | Ok (node, st1, ds1) =>
+    match run E grow_link_src (mkCfg [VNat i; VPtr (Some node); VPtr (Some fn)] st1 ds1) with
+    | Ok (c, _) => grow_args g fn n (S i) ds1 (c_st c)
+    | Exn => Exn
+    | Stuck => Stuck
+    end
+  | Exn => Exn
+  | Stuck => Stuck
+  end.
+Proof. exact grow_args_is_descr. Qed.
